@@ -25,6 +25,8 @@ func c01(c *Ctx) {
 	r.Rule("C01.deflate-tail", "decompressNoContextTakeover appends 00 00 ff ff followed by a final empty stored block; flateWriteWrapper.Close checks the withheld bytes against 00 00 ff ff; truncWriter withholds exactly 4 bytes")
 	r.Rule("C01.compress-writer", "a compressed message is written through the compressing writer installed as Conn.writer (same rule as C02.rsv1) and the wrapper's Close flushes flate and closes the message writer")
 
+	r.Rule("C01.control-undisturbing", "control frames arriving between data frames do not end the data stream: the default ping/pong/close handlers are the documented ones and the default ping and pong handlers return nil whatever WriteControl reports (same rule as C08.defaults)")
+	c08defaults(c, rd, "C01.control-undisturbing")
 	w.frameHeader("C01.writer-codec", "C01.writer-codec", "C01.writer-codec")
 	w.controlHeader("C01.writer-codec", "C01.writer-codec", "C01.writer-codec")
 	rd.parserRules("C01.reader-codec", "C01.reader-codec", "C01.reader-codec", "C01.reader-codec")
